@@ -9,7 +9,8 @@ from props import c20_checks as c
 from vlib import sut
 from vlib.runner import Violation, watchdog
 
-WORDS = ['The', 'word', 'a', 'I', 'x', 'e.g.', 'b', 'Then', 'follows', '$y$', '$z$,', '\\[ a = b \\]', '\\[ c. \\]', 'Z', 'z.\\,B.', 'i.e.', '1', 'and', '\\[ d, \\]']
+CHANGE = ['K-K-K', 'L-L-L', 'M-M-M', 'N-N-N']
+WORDS = ['The', 'word', '\\foreignlanguage{german}{das}', '\\foreignlanguage{french}{x}', '\\foreignlanguage{german}{u v}', 'a', 'I', 'x', 'e.g.', 'b', 'Then', 'follows', '$y$', '$z$,', '\\[ a = b \\]', '\\[ c. \\]', 'Z', 'z.\\,B.', 'i.e.', '1', 'and', '\\[ d, \\]']
 
 
 def gen(rnd):
@@ -17,7 +18,7 @@ def gen(rnd):
     src = ' '.join(rnd.choice(WORDS) for _ in range(n)) + '\n'
     accept = rnd.choice(['A|a|I||', 'a|I', 'x|e.g.|i.e.||', '', 'z.\\,B.||', 'a'])
     mode = rnd.choice([None, 'displayed', 'inline', 'all', 'd', 'i'])
-    return {'shell': True, 'src': src, 'accept': accept, 'eqmode': mode}
+    return {'shell': True, 'src': src, 'accept': accept, 'eqmode': mode, 'ml': rnd.random() < 0.5}
 
 
 def check(case):
@@ -26,6 +27,9 @@ def check(case):
     with open(os.path.join(d, 't.tex'), 'w', encoding='utf-8') as f:
         f.write(case['src'])
     args = ['--output', 'json', '--language', 'en-GB', '--single-letters', case['accept']]
+    ml = bool(case.get('ml'))
+    if ml:
+        args += ['--multi-language', '--ml-continue-threshold', '2']
     if case['eqmode']:
         args += ['--equation-punctuation', case['eqmode']]
     with watchdog(120):
@@ -34,26 +38,34 @@ def check(case):
     if rc != 0:
         raise Violation('shell-failed', case, det)
     got = sorted((m['offset'], m['rule']['id']) for m in json.loads(out.decode('utf-8'))['matches'])
-    (plain, cmap), _ = sut.tex2txt(case['src'], lang='en-GB', pack='*')
+    res, _ = sut.tex2txt(case['src'], ml=ml, thresh=2 if ml else None, lang='en-GB', pack='*')
     acc = case['accept']
     if acc.endswith('||'):
-        acc += '|'.join(c.DISP['en'] + c.INL['en'])
-    iso = c.ref_isolated(plain)
-    occ = []
-    for p in [a for a in acc.split('|') if a]:
-        occ += c.occurrences(plain, p)
-    ambiguous = any(a < j and i < b and (a, b) != (i, j) for (i, j) in occ for (a, b) in occ)
-    covered = set()
-    for i, j in occ:
-        covered.update(range(i, j))
-    want = [(cmap[i] - 1, 'PRIVATE::SINGLE_LETTER') for i in iso if i not in covered]
-    if case['eqmode']:
-        repls = {'d': c.DISP['en'], 'i': c.INL['en'], 'a': c.DISP['en'] + c.INL['en']}[case['eqmode'][0]]
-        want += [(cmap[o] - 1, 'PRIVATE::EQUATION_PUNCTUATION') for o, _ in c.ref_equation(plain, repls)]
+        # documented: trailing || adds the equation placeholders and (multi-language) the language-change placeholders
+        acc += '|'.join(c.DISP['en'] + c.INL['en'] + (CHANGE if ml else []))
+    want = []
+    ambiguous = False
+    plains = []
+    for lang, plain, cmap in sut.parts_of(res, ml):
+        if not plain.strip():
+            continue
+        plains.append(plain)
+        iso = c.ref_isolated(plain)
+        occ = []
+        for p in [a for a in acc.split('|') if a]:
+            occ += c.occurrences(plain, p)
+        ambiguous = ambiguous or any(a < j and i < b and (a, b) != (i, j) for (i, j) in occ for (a, b) in occ)
+        covered = set()
+        for i, j in occ:
+            covered.update(range(i, j))
+        want += [(cmap[i] - 1, 'PRIVATE::SINGLE_LETTER') for i in iso if i not in covered]
+        if case['eqmode']:
+            repls = {'d': c.DISP['en'], 'i': c.INL['en'], 'a': c.DISP['en'] + c.INL['en']}[case['eqmode'][0]]
+            want += [(cmap[o] - 1, 'PRIVATE::EQUATION_PUNCTUATION') for o, _ in c.ref_equation(plain, repls)]
     if ambiguous:
         return False
     if got != sorted(want):
-        raise Violation('shell-own-checks-differ', case, dict(det, plain=plain, expected=sorted(want), actual=got))
+        raise Violation('shell-own-checks-differ', case, dict(det, plain=plains, expected=sorted(want), actual=got))
     return bool(want)
 
 
